@@ -333,6 +333,10 @@ def ob_step_true(kind, clause, cols=None):
                                                                    d2.fields["omega"].elem(k_, col) == data.fields["omega"].elem(k_, col))))
         elif clause == "adds_highest_residual_candidates":
             goals, ax = selection_goals(ex, kind, data, d2, mt, mx, cols)
+            # "residual" is the residual of the training loss: DynamicLoss.evaluate (heterogeneous parameters applied), not
+            # the bare user equation
+            meths = getattr(ex, "residual_methods", [])
+            goals = [("candidates_ranked_by_DynamicLoss.evaluate", z3.BoolVal(bool(meths) and all(m_ == "evaluate" for m_ in meths)))] + goals
             return result(name, goals, pre, ex, t0, extra_axioms=ax)
         elif clause == "candidates_in_domain":
             goals = domain_goals(ex, kind, data, d2, mt, mx)
